@@ -42,6 +42,22 @@ def lean_list(xs, f):
 
 # ---------------------------------------------------------------------------------- command table
 
+SOFT_PROBLEMS = []
+
+
+def value_list(v, where):
+    """`values` / `valid_for` must be a list of str: `x in <list>` is membership.  A plain str would make it a substring test —
+    not what the model implements: kept as a one-element list (so that the generators still work) and reported"""
+    if v is None:
+        return None
+    if isinstance(v, str):
+        SOFT_PROBLEMS.append("%s is a str, not a list: `in` is a substring test there" % where)
+        return [v]
+    if isinstance(v, (list, tuple)) and all(isinstance(x, str) for x in v):
+        return list(v)
+    raise Unmodelled("%s is %r" % (where, type(v).__name__))
+
+
 def extract_extra(e):
     t = e.get("type")
     if isinstance(t, str):
@@ -53,7 +69,8 @@ def extract_extra(e):
     for x in types:
         if x not in TYPES:
             raise Unmodelled("extra_arg type name %r" % x)
-    return {"types": types, "typeIsStr": is_str, "values": e.get("values"), "validFor": e.get("valid_for")}
+    return {"types": types, "typeIsStr": is_str, "values": value_list(e.get("values"), "extra_arg values"),
+            "validFor": value_list(e.get("valid_for"), "extra_arg valid_for")}
 
 
 def extract_arg(a):
@@ -70,7 +87,7 @@ def extract_arg(a):
         "name": a["name"],
         "types": list(a["type"]),
         "required": bool(a.get("required", False)),
-        "values": a.get("values"),
+        "values": value_list(a.get("values"), "values of argument %r" % a["name"]),
         "extValues": sorted(a.get("extension_values", {}).items()) if a.get("extension_values") else [],
         "extension": a.get("extension") or None,
         "extra": extract_extra(a["extra_arg"]) if "extra_arg" in a else None,
@@ -260,6 +277,7 @@ def main():
         problems.append(str(e))
         table, unreachable = [], []
     rules = extract_lexrules()
+    problems += SOFT_PROBLEMS
     changed = []
     if write_if_changed(os.path.join(GEN, "Tables.lean"), render_tables(table, unreachable, problems)):
         changed.append("Tables.lean")
